@@ -206,7 +206,14 @@ def t3_reexport() -> Iterator[Dict[str, Any]]:
                                             cls("X", body=flat(fn("f"), cls("In", "Helper"), alias("h", "Helper"), alias("t", "tool"))))),
                    mod("other", 1, ops=flat(cls("Helper", body=[fn("other_h")]))),
                    mod("use", 1, ops=flat(frm("p", "X"), cls("U", "X.In"), alias("uh", "X.h")))], "T3", idiom="names-inside-moved-class")
-    # a re-exported MODULE with relative imports of its own (siblings in its original package; an outer module has the same names):
+    # the same for a class moved TWICE (re-exported by its package, then by the package above): the module whose names the class
+    # body reads is the one it was written in, not the one it left last
+    yield project([mod("top", pkg=True, ops=flat(frm("mid._impl", "X", lvl=1), frm("other", "Helper", lvl=1), fn("tool")), all=["X"]),
+                   mod("mid", 1, pkg=True, ops=flat(frm("_impl", "X", lvl=1), cls("Helper", body=[fn("mid_h")]), fn("tool")), all=["X"]),
+                   mod("_impl", 2, ops=flat(cls("Helper", body=[fn("impl_h")]), fn("tool"),
+                                            cls("X", body=flat(fn("f"), cls("In", "Helper"), alias("h", "Helper"), alias("t", "tool"))))),
+                   mod("other", 1, ops=flat(cls("Helper", body=[fn("other_h")]))),
+                   mod("use", 1, ops=flat(frm("top", "X"), cls("U", "X.In"), alias("uh", "X.h"), alias("ut", "X.t")))], "T3", idiom="names-inside-twice-moved-class")
     # what `from . import helper` means is decided by where the module is written, not by where it is documented
     yield project([mod("pkg", pkg=True, ops=[frm("_vendor", "codec", lvl=1)], all=["codec"]),
                    mod("helper", 1, ops=flat(fn("encode"), fn("outer_only"))),
@@ -223,7 +230,13 @@ def t3_reexport() -> Iterator[Dict[str, Any]]:
                    mod("_impl", 1, ops=flat(cls("X", body=[fn("m")]))),
                    mod("use", 1, ops=flat(frm("p._impl", "X"), cls("U", "X"), frm("p.mod", "X", "X2"), cls("V", "X2")))],
                   "T3", idiom="reexporter-renamed-by-its-package")
-    # origin lists the name in its own __all__: no move
+    # a function named like the module that defines it (glob.glob, copy.copy, pprint.pprint), re-exported with a second function:
+    # the old qualified name of the second one (pkg.render.escape) now leads THROUGH the function pkg.render
+    yield project([mod("pkg", pkg=True, ops=[frm("render", "escape", lvl=1), frm("render", "render", lvl=1)], all=["render", "escape"]),
+                   mod("render", 1, ops=flat(fn("render"), fn("escape"))),
+                   mod("consumer", 1, ops=flat(frm("pkg.render", "escape"), frm("pkg.render", "render"), frm("pkg", "render", "public"),
+                                               alias("q", "escape"), alias("r", "render"), alias("pr", "public")))],
+                  "T3", idiom="function-named-like-its-module")
     yield project([mod("p", pkg=True, ops=[frm("_impl", "X", lvl=1)], all=["X"]),
                    mod("_impl", 1, ops=flat(cls("X")), all=["X"]),
                    mod("co", 1, ops=flat(frm("p", "X"), cls("D", "X")))], "T3", idiom="origin-all")
@@ -640,6 +653,17 @@ def t15_rebinding() -> Iterator[Dict[str, Any]]:
                 suse2 = flat(star("b", lvl=1), star("w", lvl=1), alias("y", name)) + (cls("D", name) if name == "W" else [])
                 yield project([init, mod("b", 1, ops=flat(cls("W", body=[fn("draw")]), fn("enc")))] + second
                               + [mod("w", 1, ops=ops), mod("s", 1, ops=suse), mod("s2", 1, ops=suse2)], "T15", shape=shape, reexport=False, star=True)
+    # a package that star-imports a fallback, then the real module, which imports a sibling half way through its body; another
+    # module, analysed before the package, reaches the real module / the sibling first: with a plain import, with a from-import
+    for first in ("import", "from", "sibling"):
+        head = {"import": [imp("top.lib.core")], "from": [frm("top.lib.core", "Late", "L0")], "sibling": [imp("top.lib._util")]}[first]
+        yield project([mod("top", pkg=True),
+                       mod("app", 1, ops=flat(head, frm("top.lib", "Late", "L"), frm("top.lib", "tool", "t"), cls("A", "L"))),
+                       mod("lib", 1, pkg=True, ops=[star("_fallback", lvl=1), star("core", lvl=1)]),
+                       mod("_fallback", 3, ops=flat(cls("Late", body=[fn("fb")]), fn("tool"))),
+                       mod("_util", 3, ops=flat(fn("helper"))),
+                       mod("core", 3, ops=flat(cls("Early"), frm("", "_util", lvl=1), cls("Late", "Early", body=[fn("real")]), fn("tool")))],
+                      "T15", shape="fallback-then-real", first=first)
 
 
 def t16_type_checking_cycle() -> Iterator[Dict[str, Any]]:
